@@ -160,6 +160,44 @@ MatchTop(top, s) ==
 Match3(p, s)  == LET t == ParseTop(p) IN IF t.ok THEN MatchTop(t, s) ELSE "E"
 Matches(p, s) == Match3(p, s) = "T"
 
+(* ------------------- segmented patterns (SegmentedStringMatcher.h) ------------------- *)
+(* "Similar to a StringMatcher, but this version segments both the wild card expression and the paths to be matched      *)
+(*  against into sections.  For example, if the wild card expression is "*foo/bar*" and the string to be matched against *)
+(*  is "foot/ball", the SegmentedStringMatcher will try to match "foo*" against "foot" and then "bar*" against "ball",    *)
+(*  instead of trying to match "*foo/bar*" against "foot/ball"."                                                         *)
+(* Match(matchString, prefixMatchOkay): "if true, Match() will match a pattern that is shorter than the number of tokens *)
+(*  parsed, as long as the initial tokens match.  For example, a pattern of "f??/b??" would match the string             *)
+(*  "foo/bar/baz" ...  If false, then the number of tokens in the pattern must exactly match the number of tokens in the *)
+(*  string."   SetNegate: "Match() will return the logical opposite of what it would otherwise return ... this flag is   *)
+(*  also set by SetPattern(..., true), based on whether or not the pattern string starts with a tilde."                  *)
+(* segmentSeparatorChars: "This string will be passed to our StringTokenizer"; StringTokenizer.h: a character listed     *)
+(*  once is a "soft" separator: "multiple contiguous instances of this character will be treated as a single separator", *)
+(*  listed twice a "hard" separator: "multiple contiguous instances are interpreted as separating empty sub-strings".    *)
+(* Silent, hence Either: a leading or trailing separator (pattern or subject), the empty string under a hard separator,  *)
+(*  a pattern without any segment, a segment that itself begins with ~ or a backtick or is not a judged simple pattern.  *)
+cSlash == 47
+SegDefinite(s, sep, hard) == IF s = <<>> THEN ~hard ELSE s[1] # sep /\ s[Len(s)] # sep
+SegTokens(s, sep, hard)   == IF s = <<>> THEN <<>> ELSE IF hard THEN SplitAt(s, sep) ELSE SelectSeq(SplitAt(s, sep), LAMBDA x : x # <<>>)
+SegNeg(p)  == p # <<>> /\ p[1] = cTilde
+SegBody(p) == IF SegNeg(p) THEN Tail(p) ELSE p
+SegOfPattern(p, sep, hard) == SegTokens(SegBody(p), sep, hard)
+\* the pattern has a documented meaning segment by segment
+SegJudged(p, sep, hard) == /\ SegBody(p) # <<>> /\ SegDefinite(SegBody(p), sep, hard)
+                           /\ LET segs == SegOfPattern(p, sep, hard) IN \A n \in 1..Len(segs) : segs[n] # <<>> /\ segs[n][1] \notin {cTilde, cTick} /\ WellFormed(segs[n])
+And3(S) == IF "F" \in S THEN "F" ELSE IF "E" \in S THEN "E" ELSE "T"
+\* res[n] = the three-valued answer of pattern segment n for subject token n (only n <= number of tokens is looked at)
+SegCombine(neg, nsegs, ntoks, prefixOK, res) ==
+  LET starTail == "seg_star_skips_count" \in Wrong          \* deliberately wrong variant: see WildcardLaws
+      r == IF ~starTail /\ (ntoks < nsegs \/ (~prefixOK /\ ntoks # nsegs)) THEN "F"
+           ELSE IF starTail /\ ~prefixOK /\ ntoks > nsegs THEN "F"
+           ELSE And3({res[n] : n \in 1..(IF ntoks < nsegs THEN ntoks ELSE nsegs)})
+  IN IF neg THEN Not3(r) ELSE r
+SegMatch3(p, s, sep, hard, prefixOK) ==
+  IF ~SegJudged(p, sep, hard) \/ ~SegDefinite(s, sep, hard) THEN "E"
+  ELSE LET segs == SegOfPattern(p, sep, hard)  toks == SegTokens(s, sep, hard) IN
+       SegCombine(SegNeg(p), Len(segs), Len(toks), prefixOK, [n \in 1..Len(segs) |-> IF n <= Len(toks) THEN Match3(segs[n], toks[n]) ELSE "F"])
+SegMatches(p, s, sep, prefixOK) == SegMatch3(p, s, sep, FALSE, prefixOK) = "T"
+
 (* ---------------------- escaping and uniqueness ------------------------ *)
 \* characters with a meaning in a simple pattern; EscapeRegexTokens: "a backslash inserted in front of any char that is special"
 SpecialAnywhere == {cStar, cQm, cLB, cRB, cLP, cRP, cBar, cComma, cBsl} \cup Undocumented
